@@ -69,6 +69,9 @@ type c19Input struct {
 	Start   c19S       `json:"start,omitempty"`
 	End     c19S       `json:"end,omitempty"`
 	Fault   int        `json:"fault,omitempty"` // k > 0: the k-th call that reaches the database driver fails
+	// earlier requests served by the same storage object (same process, same connection pool) before this one; what
+	// they were must not matter for the SQL of this request (DB level only; their own SQL is not recorded)
+	Pre []c19Input `json:"pre,omitempty"`
 }
 
 type c19Event struct {
@@ -252,6 +255,25 @@ func c19RunDB(in c19Input) (res c19Result) {
 		res.Events = append([]c19Event{}, rec.events...)
 	}()
 	var err error
+	if len(in.Pre) > 0 {
+		rec.fault = 0
+		for _, p := range in.Pre {
+			func() {
+				defer func() { _ = recover() }()
+				switch p.Op {
+				case "report":
+					_ = iface.RegisterObservationLog(string(p.Trial), c19Log(p))
+				case "get":
+					_, _ = iface.GetObservationLog(string(p.Trial), string(p.Metric), string(p.Start), string(p.End))
+				case "delete":
+					_ = iface.DeleteObservationLog(string(p.Trial))
+				}
+			}()
+		}
+		rec.mu.Lock()
+		rec.events, rec.calls, rec.fault = nil, 0, in.Fault
+		rec.mu.Unlock()
+	}
 	switch in.Op {
 	case "report":
 		err = iface.RegisterObservationLog(string(in.Trial), c19Log(in))
